@@ -13,6 +13,8 @@
 (*   SYM Symmetrizer                 compute (default analysis), get        *)
 (*   S   StatesClassification        compute, get (getBlockNumber)          *)
 (*   H   Hamiltonian                 prepare, compute, get (getEigenValue)  *)
+(*   HP  HamiltonianPart (block 0)   prepare, compute, get -- a part used   *)
+(*                                   on its own; prepare() refills it       *)
 (*   DM  DensityMatrix               prepare, compute, get (getWeight)      *)
 (*   CX  CreationOperator            prepare, compute, get (block map+parts)*)
 (*   C   AnnihilationOperator        idem                                   *)
@@ -36,7 +38,7 @@
 (***************************************************************************)
 EXTENDS Naturals, Sequences, FiniteSets, TLC
 
-Objs == {"IC", "HS", "SYM", "S", "H", "DM", "CX", "C", "QA", "OPS", "GF", "X", "SU", "EA", "V"}
+Objs == {"IC", "HS", "SYM", "S", "H", "HP", "DM", "CX", "C", "QA", "OPS", "GF", "X", "SU", "EA", "V"}
 OpNames == {"prepare", "compute", "get", "copy"}
 Copyable == {"GF", "SU", "EA"}                 \* classes with a user-visible copy constructor (deep copy of the parts)
 Con == 0
@@ -44,17 +46,31 @@ Pre == 1
 Com == 2
 
 FieldOps == {"CX", "C", "QA", "OPS"}
-Deps == [o \in Objs |->
-           CASE o = "IC" -> {}
-             [] o = "HS" -> {"IC"}
-             [] o = "SYM" -> {"IC", "HS"}
-             [] o = "S" -> {"IC", "SYM"}
-             [] o = "H" -> {"IC", "HS", "S"}
-             [] o = "DM" -> {"S", "H"}
-             [] o \in FieldOps -> {"S", "H"}
-             [] o \in {"GF", "X"} -> {"S", "H", "DM", "CX", "C"}
-             [] o \in {"SU", "EA"} -> {"S", "H", "DM", "QA"}
-             [] o = "V" -> {"GF", "X"}]
+\* What a call needs of the OTHER objects, read off what the code touches (definition level).  A map dep -> least status.
+\*  prepare() of an operator only takes references to the parts of H, so H need only be Prepared; compute() rotates with the
+\*  eigenvectors, so H must be Computed; G / chi / susceptibility select their parts from the block maps of prepared operators
+\*  and the retain flags of a prepared density matrix and compute from finished ones.
+Needs(dom, f) == [d \in dom |-> f[d]]
+PrepNeeds == [o \in Objs |->
+   CASE o = "IC" -> <<>>
+     [] o = "HS" -> [IC |-> Com]
+     [] o = "SYM" -> [IC |-> Com, HS |-> Com]
+     [] o = "S" -> [IC |-> Com, SYM |-> Com]
+     [] o \in {"H", "HP"} -> [IC |-> Com, HS |-> Com, S |-> Com]
+     [] o = "DM" -> [S |-> Com, H |-> Com]
+     [] o \in FieldOps -> [IC |-> Com, S |-> Com, H |-> Pre]
+     [] o \in {"GF", "X"} -> [S |-> Com, H |-> Pre, DM |-> Pre, CX |-> Pre, C |-> Pre]
+     [] o = "SU" -> [S |-> Com, H |-> Pre, DM |-> Pre, QA |-> Pre]
+     [] o = "EA" -> [S |-> Com, H |-> Com, DM |-> Com, QA |-> Com]
+     [] o = "V" -> [GF |-> Com, X |-> Com]]
+CompNeeds == [o \in Objs |->
+   CASE o \in FieldOps -> [H |-> Com]
+     [] o \in {"GF", "X"} -> [H |-> Com, DM |-> Com, CX |-> Com, C |-> Com]
+     [] o = "SU" -> [H |-> Com, DM |-> Com, QA |-> Com]
+     [] OTHER -> <<>>]
+Sat(s, need) == \A d \in DOMAIN need : s[d] >= need[d]
+PrepOK(s, o) == Sat(s, PrepNeeds[o])
+CompOK(s, o) == Sat(s, PrepNeeds[o]) /\ Sat(s, CompNeeds[o])
 
 OneStep == {"IC", "HS", "SYM", "S", "V"}        \* a single call finishes the object (for IC and HS that call is named prepare() in the code)
 OnceOnly == {"IC", "HS"}                        \* no status guard: a second call appends everything again -- not a documented call
@@ -68,12 +84,14 @@ ThrowingGet == {"S", "DM", "CX", "C", "QA"}      \* getter at Constructed throws
 \* prepareAll() ALWAYS builds fresh operators: called again after computeAll() it replaces the computed
 \* operators by prepared ones (the old ones stay alive for whoever holds a reference) -- the one place
 \* where a status goes backwards; modelled as the code behaves (Regress below) and excluded from Monotone.
+\* The same holds for a HamiltonianPart used on its own: prepare() has no guard, it refills the block matrix and
+\* sets the status back to Prepared.
+Regressing == {"OPS", "HP"}
 
 VARIABLES st,          \* status of every object
           last         \* the last call and what it did: [obj, op, out, ret, changed]; observation only
 vars == <<st, last>>
 
-Ready(s, o) == \A d \in Deps[o] : s[d] = Final[d]
 
 \* ---- design level: effect of one call in status map s ------------------------------------------------
 \* out: "ok" / "throw";  ret: what the call hands back ("none", "value", "table", "empty");  changed: objects whose data change
@@ -83,15 +101,14 @@ Adv(s, o, to, r) == [st |-> [s EXCEPT ![o] = to], out |-> "ok", ret |-> r, chang
 
 Eff(s, o, op) ==
   CASE op = "prepare" ->
-         (IF o = "OPS" /\ s[o] = Com THEN Adv(s, o, Pre, "none")             \* Regress: fresh, uncomputed operators
-          ELSE IF s[o] >= Pre THEN NoOp(s, "none")                          \* if (Status >= Prepared) return;
-          ELSE IF Ready(s, o) THEN Adv(s, o, Pre, "none")
+         (IF o \in Regressing /\ s[o] = Com THEN Adv(s, o, Pre, "none")       \* Regress: fresh, uncomputed data
+          ELSE IF s[o] >= Pre THEN NoOp(s, "none")                          \* if (Status >= Prepared) return;  (OPS, HP: same data again)
+          ELSE IF PrepOK(s, o) THEN Adv(s, o, Pre, "none")
           ELSE Throw(s))                                                     \* only reached through Guarded
     [] op = "compute" ->
          (IF s[o] = Com THEN NoOp(s, IF o = "X" THEN "empty" ELSE "none")   \* X: a second compute() returns an EMPTY table
-          ELSE IF s[o] = Pre THEN Adv(s, o, Com, IF o = "X" THEN "table" ELSE "none")
-          ELSE IF o \in AutoPrepare /\ Ready(s, o) THEN Adv(s, o, Com, "none")
-          ELSE IF o \in OneStep /\ Ready(s, o) THEN Adv(s, o, Com, "none")
+          ELSE IF s[o] = Pre /\ CompOK(s, o) THEN Adv(s, o, Com, IF o = "X" THEN "table" ELSE "none")
+          ELSE IF s[o] = Con /\ o \in (AutoPrepare \cup OneStep) /\ CompOK(s, o) THEN Adv(s, o, Com, "none")
           ELSE Throw(s))
     [] op = "get" ->
          (IF s[o] = Final[o] THEN NoOp(s, "value") ELSE Throw(s))
@@ -100,11 +117,11 @@ Eff(s, o, op) ==
 \* ---- which calls are behaviours ------------------------------------------------------------------
 \* the documented workflow: dependencies are finished, own predecessor step done (or done implicitly)
 Documented(s, o, op) ==
-  CASE op = "prepare" -> o \in HasPrepare /\ (s[o] >= Pre \/ Ready(s, o))
+  CASE op = "prepare" -> o \in HasPrepare /\ (s[o] >= Pre \/ PrepOK(s, o))
     [] op = "compute" -> /\ o \in HasCompute
-                         /\ \/ s[o] >= Pre /\ o \notin OnceOnly
-                            \/ o \in (AutoPrepare \cup OneStep) /\ s[o] = Con /\ Ready(s, o)
-                            \/ o \in (AutoPrepare \cup OneStep) \ OnceOnly /\ Ready(s, o)
+                         /\ \/ s[o] = Com /\ o \notin OnceOnly
+                            \/ s[o] = Pre /\ CompOK(s, o)
+                            \/ s[o] = Con /\ o \in (AutoPrepare \cup OneStep) /\ CompOK(s, o)
     [] op = "get" -> s[o] = Final[o]
     [] op = "copy" -> o \in Copyable
 \* calls out of order that the code rejects with exStatusMismatch and that leave everything as it was
@@ -135,20 +152,24 @@ FairSpec == Spec /\ \A o \in Objs, op \in {"prepare", "compute"} : WF_vars(Produ
 
 \* ---- properties ------------------------------------------------------------------------------------
 TypeOK == st \in [Objs -> {Con, Pre, Com}] /\ (\A o \in OneStep : st[o] # Pre) /\ st["EA"] # Com
-\* definition level: no object holds data derived from unfinished inputs
-DepsFinished == \A o \in Objs : st[o] > Con => Ready(st, o)
+\* definition level: no object holds data derived from inputs that were not there yet
+\* (an operator container or a part that was re-prepared does not invalidate what was built from the old data: excluded on the right)
+DepsFinished == \A o \in Objs : /\ st[o] >= Pre => PrepOK(st, o)
+                                /\ st[o] = Com => CompOK(st, o)
 \* a documented call never throws; a guarded call always throws and changes nothing
 DocumentedSucceeds == \A o \in Objs, op \in OpNames : Documented(st, o, op) => Eff(st, o, op).out = "ok"
 GuardedRejects == \A o \in Objs, op \in OpNames :
                      Guarded(st, o, op) => ~Documented(st, o, op) /\ Eff(st, o, op).out = "throw" /\ Eff(st, o, op).st = st
 \* statuses only grow, a call touches the data of its own object only, and a finished object is never recomputed
-Monotone == [][\A o \in Objs \ {"OPS"} : st'[o] >= st[o]]_vars
-Regress == [][st'["OPS"] < st["OPS"] => last'.obj = "OPS" /\ last'.op = "prepare"]_vars
+Monotone == [][\A o \in Objs \ Regressing : st'[o] >= st[o]]_vars
+Regress == [][\A o \in Regressing : st'[o] < st[o] => last'.obj = o /\ last'.op = "prepare"]_vars
 OnlyOwnData == [][last'.changed \subseteq {last'.obj}]_vars
-ComputedOnce == [][\A o \in Objs \ {"OPS"} : st[o] = Final[o] => o \notin last'.changed]_vars
+ComputedOnce == [][\A o \in Objs \ Regressing : st[o] = Final[o] => o \notin last'.changed]_vars
 \* a getter is served exactly when the object is finished
 GetIffFinished == [][last'.op = "get" => (last'.out = "ok" <=> st[last'.obj] = Final[last'.obj])]_vars
-\* the workflow can always be completed
+\* the workflow can always be completed: every object is eventually finished (with two objects that can be re-prepared
+\* an adversary can keep one of them unfinished at any given moment, so "all finished at once" is not the statement)
 AllDone == \A o \in Objs : st[o] = Final[o]
-Completes == <>AllDone
+Completes == /\ <>(\A o \in Objs \ Regressing : st[o] = Final[o])
+             /\ \A o \in Regressing : <>(st[o] = Final[o])
 =============================================================================
